@@ -221,6 +221,7 @@ func classOf(pf phaseFaults) string {
 }
 
 func main() {
+	explore.BeforeExec = []func(){cdi.VerifResetGlobals}
 	tier := "quick"
 	if len(os.Args) > 1 {
 		tier = os.Args[1]
